@@ -39,7 +39,12 @@ class Witness:
         return result
 
     def has_annex(self):
-        return len(self.items) and self.items[-1][0] == 0x50
+        # BIP341: at least two items and the last one starts with 0x50
+        return (
+            len(self.items) >= 2
+            and len(self.items[-1]) > 0
+            and self.items[-1][0] == 0x50
+        )
 
     def control_block(self):
         if self.has_annex():
